@@ -288,6 +288,7 @@ package db
 // turn a failed scan into success (C12).
 //@ ghost scan_ok bool
 //@ func (*db.Table).Scan
+//@   own-errors none
 //@   ghost-exit scan_ok = (r0 == nil)
 //@   ensures [status] scan_ok <==> r0 == nil
 //@   ghost-entry rb = 31
@@ -309,6 +310,7 @@ package db
 //@   ghost-exit searching = old(searching)
 
 //@ func (*db.Table).Scan$1
+//@   own-errors none
 //@   implements functype db.iterCB
 //@   free-requires cb != nil && t != nil && t.db != nil && !searching && !ixmode
 
@@ -316,6 +318,7 @@ package db
 // rowid_hit: whether the last Table.Rowid call handed out a record.
 //@ ghost rowid_hit bool
 //@ func (*db.Table).Rowid
+//@   own-errors none
 //@   ghost-exit rowid_hit = (reg(r0) != 0)
 //@   ensures [hit] rowid_hit <==> reg(r0) != 0
 //@   ghost-entry rb = 31
@@ -416,6 +419,7 @@ package db
 //@   ensures [stop] done ==> halt
 
 //@ func (*db.Index).Scan
+//@   own-errors none
 //@   ghost-exit scan_ok = (r0 == nil)
 //@   ensures [status] scan_ok <==> r0 == nil
 //@   ghost-entry rb = 31
@@ -528,6 +532,7 @@ package db
 // The keyed scans of the low-level API.
 
 //@ func (*db.Index).ScanMin
+//@   own-errors none
 //@   ghost-exit scan_ok = (r0 == nil)
 //@   ensures [status] scan_ok <==> r0 == nil
 //@   ghost-entry rb = 31
@@ -560,6 +565,7 @@ package db
 //@   free-requires cb != nil && !eqmode && !rngmode && ixmode
 
 //@ func (*db.Index).ScanEq
+//@   own-errors none
 //@   ghost-exit scan_ok = (r0 == nil)
 //@   ensures [status] scan_ok <==> r0 == nil
 //@   ghost-entry rb = 31
@@ -595,6 +601,7 @@ package db
 //@   ghost-exit halt = halt || done
 
 //@ func (*db.Index).ScanRange
+//@   own-errors none
 //@   ghost-exit scan_ok = (r0 == nil)
 //@   ensures [status] scan_ok <==> r0 == nil
 //@   ghost-entry rb = 31
